@@ -14,7 +14,7 @@ use linfa::traits::{Fit, Predict, Transformer};
 use linfa::{DatasetBase, Float};
 use linfa_clustering::{KMeans, KMeansInit};
 use linfa_nn::distance::{Distance, L1Dist, L2Dist, LInfDist};
-use ndarray::{Array1, Array2};
+use ndarray::{s, Array1, Array2, ArrayView2, ShapeBuilder};
 use rand::{Error as RandError, RngCore, SeedableRng};
 use rand_xoshiro::Xoshiro256Plus;
 use std::sync::{Arc, Mutex};
@@ -53,14 +53,59 @@ impl RngCore for SharedRng {
 fn arr<F: Float>(rows: &[Vec<i64>], ncols: usize) -> Array2<F> {
     Array2::from_shape_fn((rows.len(), ncols), |(i, j)| F::cast(rows[i][j]))
 }
+/// The same logical matrix in different memory layouts (inp.form): the code under test must only see
+/// the logical values. "owned"/"view": standard layout; "revf"/"revr"/"revb": views with a reversed
+/// (stride -1) feature axis / row axis / both; "forder": column-major owned array; "row2"/"col2":
+/// views taking every second row / column of a larger buffer whose other cells hold junk (97).
+struct Laid<F> {
+    back: Array2<F>,
+    lay: String,
+}
+impl<F: Float> Laid<F> {
+    fn new(logical: &Array2<F>, lay: &str) -> Self {
+        let (n, f) = logical.dim();
+        let junk = F::cast(97);
+        let back = match lay {
+            "owned" | "view" => logical.clone(),
+            // (built cell by cell in standard layout: `to_owned()` of a reversed view would keep the negative stride)
+            "revf" => Array2::from_shape_fn((n, f), |(i, j)| logical[[i, f - 1 - j]]),
+            "revr" => Array2::from_shape_fn((n, f), |(i, j)| logical[[n - 1 - i, j]]),
+            "revb" => Array2::from_shape_fn((n, f), |(i, j)| logical[[n - 1 - i, f - 1 - j]]),
+            "forder" => Array2::from_shape_fn((n, f).f(), |(i, j)| logical[[i, j]]),
+            "row2" => Array2::from_shape_fn((2 * n, f), |(i, j)| if i % 2 == 0 { logical[[i / 2, j]] } else { junk }),
+            "col2" => Array2::from_shape_fn((n, 2 * f), |(i, j)| if j % 2 == 0 { logical[[i, j / 2]] } else { junk }),
+            _ => panic!("unknown form {}", lay),
+        };
+        Laid { back, lay: lay.to_string() }
+    }
+    fn view(&self) -> ArrayView2<'_, F> {
+        debug_assert!(self.back.is_standard_layout() || self.lay == "forder");
+        match self.lay.as_str() {
+            "revf" => self.back.slice(s![.., ..;-1]),
+            "revr" => self.back.slice(s![..;-1, ..]),
+            "revb" => self.back.slice(s![..;-1, ..;-1]),
+            "row2" => self.back.slice(s![..;2, ..]),
+            "col2" => self.back.slice(s![.., ..;2]),
+            _ => self.back.view(),
+        }
+    }
+    /// owned forms are handed over as owned arrays, all others as views
+    fn owned(&self) -> bool {
+        self.lay == "owned" || self.lay == "forder"
+    }
+}
+
 fn f64of<F: Float>(v: F) -> f64 {
     v.to_f64().unwrap_or(f64::NAN)
 }
 
 /// everything the public API tells about a fitted model, on the training points and on the queries
-fn observe<F: Float, D: Distance<F>>(model: &KMeans<F, D>, pts: &Array2<F>, qs: &Array2<F>, o: &mut vh::serde_json::Map<String, Value>) {
+fn observe<F: Float, D: Distance<F>>(model: &KMeans<F, D>, lp: &Laid<F>, lq: &Laid<F>, o: &mut vh::serde_json::Map<String, Value>) {
+    let pts = lp.view();
+    let qs = lq.view();
     let cen = model.centroids();
     let cv: Vec<f64> = cen.iter().map(|v| f64of(*v)).collect();
+    o.insert("strides".into(), json!(pts.strides().iter().map(|x| *x as i64).collect::<Vec<_>>()));
     o.insert("nrows".into(), json!(cen.nrows()));
     o.insert("ncols".into(), json!(cen.ncols()));
     o.insert("fin".into(), json!(all_finite(cv.iter())));
@@ -69,16 +114,20 @@ fn observe<F: Float, D: Distance<F>>(model: &KMeans<F, D>, pts: &Array2<F>, qs: 
     let inertia = f64of(model.inertia());
     o.insert("inertia".into(), fx(inertia, S));
     o.insert("ikey".into(), key64(inertia));
-    // batch predict on an array reference, transform on a view
-    let lab: Array1<usize> = model.predict(pts);
+    // batch predict on an array reference (owned array or view, in the case's layout), transform on a view
+    let lab: Array1<usize> = if lp.owned() { model.predict(&lp.back) } else { model.predict(&pts) };
     o.insert("lab".into(), json!(lab.iter().map(|l| *l as i64).collect::<Vec<_>>()));
-    let tr: Array1<F> = model.transform(&pts.view());
+    let tr: Array1<F> = model.transform(&pts);
     o.insert("tr".into(), Value::Array(tr.iter().map(|v| fx(f64of(*v), S)).collect()));
     o.insert("trsum".into(), fx(f64of(tr.sum()), S));
-    // new observations: predict through a dataset (targets replaced), transform on the owned array
-    let qds = model.predict(DatasetBase::from(qs.clone()));
-    o.insert("qlab".into(), json!(qds.targets().iter().map(|l| *l as i64).collect::<Vec<_>>()));
-    let qtr: Array1<F> = model.transform(qs);
+    // new observations: predict through a dataset (targets replaced), transform
+    let qlab: Vec<i64> = if lq.owned() {
+        model.predict(DatasetBase::from(lq.back.clone())).targets().iter().map(|l| *l as i64).collect()
+    } else {
+        model.predict(DatasetBase::from(qs)).targets().iter().map(|l| *l as i64).collect()
+    };
+    o.insert("qlab".into(), json!(qlab));
+    let qtr: Array1<F> = if lq.owned() { model.transform(&lq.back) } else { model.transform(&qs) };
     o.insert("qtr".into(), Value::Array(qtr.iter().map(|v| fx(f64of(*v), S)).collect()));
     // single-observation form (Ix1)
     let q1: Vec<i64> = qs.outer_iter().map(|r| {
@@ -110,7 +159,9 @@ fn run_traj<F: Float, D: Distance<F>>(inp: &Value, dist: D) -> Vec<Value> {
     let c0: Array2<F> = arr(&c0_i, f);
     let qs: Array2<F> = arr(&qs_i, f);
     let k = c0.nrows();
-    let view_form = gets(inp, "form") == "view";
+    let form = gets(inp, "form");
+    let lp = Laid::new(&pts, form);
+    let lq = Laid::new(&qs, form);
     // every restart starts from the same precomputed centroids, so n_runs > 1 must not change anything
     let nruns = geti(inp, "nruns") as usize;
     let mut out = Vec::new();
@@ -121,10 +172,10 @@ fn run_traj<F: Float, D: Distance<F>>(inp: &Value, dist: D) -> Vec<Value> {
             .tolerance(tol_of::<F>(inp))
             .max_n_iterations(m as u64);
         let res = guarded(|| {
-            if view_form {
-                params.fit(&DatasetBase::from(pts.view()))
+            if lp.owned() {
+                params.fit(&DatasetBase::from(lp.back.clone()))
             } else {
-                params.fit(&DatasetBase::from(pts.clone()))
+                params.fit(&DatasetBase::from(lp.view()))
             }
         });
         let mut o = vh::serde_json::Map::new();
@@ -143,7 +194,7 @@ fn run_traj<F: Float, D: Distance<F>>(inp: &Value, dist: D) -> Vec<Value> {
                 o.insert("ok".into(), json!(true));
                 match guarded(|| {
                     let mut oo = vh::serde_json::Map::new();
-                    observe(&model, &pts, &qs, &mut oo);
+                    observe(&model, &lp, &lq, &mut oo);
                     oo
                 }) {
                     Ok(oo) => o.extend(oo),
@@ -175,6 +226,9 @@ fn run_restart<F: Float, D: Distance<F>>(inp: &Value, dist: D) -> Vec<Value> {
     let f = geti(inp, "f") as usize;
     let pts: Array2<F> = arr(&pts_i, f);
     let qs: Array2<F> = arr(&qs_i, f);
+    let form = gets(inp, "form");
+    let lp = Laid::new(&pts, form);
+    let lq = Laid::new(&qs, form);
     let k = geti(inp, "k") as usize;
     let seed = geti(inp, "seed") as u64;
     let runs = geti(inp, "runs") as usize;
@@ -197,9 +251,9 @@ fn run_restart<F: Float, D: Distance<F>>(inp: &Value, dist: D) -> Vec<Value> {
             o.insert("ev".into(), json!("single"));
             o.insert("b".into(), json!(b));
             o.insert("r".into(), json!(r));
-            match guarded(|| params.fit(&DatasetBase::from(pts.clone())).map(|model| {
+            match guarded(|| (if lp.owned() { params.fit(&DatasetBase::from(lp.back.clone())) } else { params.fit(&DatasetBase::from(lp.view())) }).map(|model| {
                 let mut oo = vh::serde_json::Map::new();
-                observe(&model, &pts, &qs, &mut oo);
+                observe(&model, &lp, &lq, &mut oo);
                 oo
             })) {
                 Err(msg) => {
@@ -228,9 +282,9 @@ fn run_restart<F: Float, D: Distance<F>>(inp: &Value, dist: D) -> Vec<Value> {
         o.insert("ev".into(), json!("multi"));
         o.insert("b".into(), json!(b));
         o.insert("r".into(), json!(r));
-        match guarded(|| params.fit(&DatasetBase::from(pts.clone())).map(|model| {
+        match guarded(|| (if lp.owned() { params.fit(&DatasetBase::from(lp.back.clone())) } else { params.fit(&DatasetBase::from(lp.view())) }).map(|model| {
             let mut oo = vh::serde_json::Map::new();
-            observe(&model, &pts, &qs, &mut oo);
+            observe(&model, &lp, &lq, &mut oo);
             oo
         })) {
             Err(msg) => {
